@@ -14,6 +14,7 @@ EXPLANATION = ("C02: exhaustive check of the aio provider protocol (result of nn
                " Also: the expiry scan accounts for every entry it walks past (E1), and whoever takes the head off a head-gated request queue starts the next transfer (S3).")
 EXPLANATION += ' Round 3: the absolute-expiry flag is updated together with the timeout / deadline it qualifies (T1).'
 EXPLANATION += " Round 5: the byte-stream connections and the platform's queues park nothing after their close has drained them (P1 = C10.R11 for src/platform and src/supplemental)."
+EXPLANATION += " Round 8: a caller's aio is cleared (nni_aio_reset) on every way from a public entry point to the nni_aio_start of a provider (A15)."
 EXPLANATION += " Round 6: a one-place park field is not overwritten while occupied (A12); an operation unlinked from its wait list is completed, queued again or handed on (A13); the mark a cancel function tests stays on the operation until it completes without a blocking step in between (A14); a busy latch is released by the completion it waits for (S4); 'served in the same critical section' requires the drain under a closed mark (P1)."
 ASSUMPTIONS = ["interleaving-level behaviour of the expire thread and of user code is not decided"]
 
@@ -1691,6 +1692,127 @@ def rule_s4(ctx):
 
 
 
+# ---------------------------------------------------------------------------
+# A15: a user's aio is cleared before a provider starts an operation on it
+
+
+def rule_a15(ctx):
+    r = ctx.rule("C02.A15", "T6", "a cancel aimed at a finished operation does not reach the next one: nni_aio_abort on an aio with no "
+                 "operation scheduled latches the abort in the aio (a_abort) and the next nni_aio_start honours it; the latch is "
+                 "meant for a cancel between submission and start, so every way from a public entry point (an nng_* function "
+                 "that takes the caller's aio) to an nni_aio_start on that aio passes nni_aio_reset(aio) first -- in the provider "
+                 "itself or in a function on the way, through direct calls and through the operation tables; without it a cancel "
+                 "that arrives after an operation completed makes the next, unrelated operation fail with its code", floor=40)
+    r.own_opinion = True          # callers and callees are resolved here
+    from .. import guards as G
+    from collections import defaultdict
+    prog = ctx.prog
+    fns = [f for f in prog.functions if not f.cfg_failed]
+    stored = defaultdict(set)
+    for slot, lst in prog.slots().items():
+        for name, g, fl in lst:
+            stored[slot].add(name)
+
+    def strip(f, n):
+        n = f.deref(n)
+        while n is not None and n.get("k") in ("un", "cast") and n.get("op", "(cast)") in ("&", "(cast)", "()"):
+            n = f.deref(n.get("e"))
+        return n
+    for f in fns:
+        for s in f.assigns():
+            rr = strip(f, s.node.get("rhs"))
+            if rr is not None and rr.get("k") == "fnref":
+                fld = last_field(f.deref(s.node["lhs"]))
+                if fld:
+                    stored[fld].add(rr["n"])
+    infield = defaultdict(set)
+    for fld, ns in stored.items():
+        for n in ns:
+            infield[n].add(fld)
+    ind_sites = defaultdict(list)
+    for f in fns:
+        for s in f.calls():
+            ind = s.node.get("ind")
+            if ind is not None:
+                fld = last_field(f.deref(ind))
+                if fld:
+                    ind_sites[fld].append((f, s))
+    callers = prog.callers()
+
+    def param_of(f, n):
+        n = strip(f, n)
+        if n is None or n.get("k") != "var" or n.get("vk") != "param":
+            return None
+        for i, p in enumerate(f.params):
+            if p["n"] == n["n"]:
+                return i
+        return None
+
+    def resets_before(f, site, name):
+        cut = {(s.b, s.i) for s in f.calls("nni_aio_reset")
+               if s.node["args"] and (strip(f, s.node["args"][0]) or {}).get("n") == name}
+        if not cut:
+            return False
+        # `if (aio != NULL) nni_aio_reset(aio)`: the way round the reset is the one without an aio
+        nz = G.nz_edges(f, lambda x: x.get("k") == "var" and x.get("n") == name)
+        seen = f.reach((f.entry, 0), blocked=lambda b, i, e: (b, i) in cut, edge_ok=lambda b, k: not (b in nz and k != nz[b]))
+        return (site.b, site.i) not in seen
+
+    memo = {}
+
+    def entry_bad(f, idx, depth, trail):
+        key = (f.name, f.file, idx)
+        if key in memo:
+            return memo[key]
+        if depth > 6 or key in trail:
+            return []
+        trail = trail | {key}
+        bad = []
+        ups = [(c, s) for (c, s) in callers.get(f.name, []) if prog.resolve(c, f.name) is f]
+        for fld in infield.get(f.name, ()):
+            ups += ind_sites.get(fld, [])
+        if f.name.startswith("nng_") and not f.static:
+            bad.append([f.name])
+        for (c, s) in ups:
+            a = s.node["args"]
+            if idx >= len(a):
+                continue
+            ci = param_of(c, a[idx])
+            if ci is None:
+                continue      # the caller's own aio (a member, a local): not a user's handle
+            if resets_before(c, s, c.params[ci]["n"]):
+                continue
+            for b in entry_bad(c, ci, depth + 1, trail):
+                bad.append(b + [f.name])
+        memo[key] = bad
+        return bad
+
+    n = 0
+    for f in fns:
+        if f.normalized:
+            continue
+        for s in f.calls("nni_aio_start"):
+            idx = param_of(f, s.node["args"][0]) if s.node["args"] else None
+            if idx is None:
+                continue
+            n += 1
+            name = f.params[idx]["n"]
+            if resets_before(f, s, name):
+                r.ob(f, "nni_aio_start(%s) at line %s after nni_aio_reset(%s)" % (name, s.line, name))
+                continue
+            bad = entry_bad(f, idx, 0, frozenset())
+            if not bad:
+                r.ob(f, "nni_aio_start(%s) at line %s: every public way in resets the aio first" % (name, s.line))
+                continue
+            chain = min(bad, key=len)
+            ctx.fail(r, f, "operation started on an aio that was not cleared", s.line,
+                     "%s starts an operation on the caller's aio (line %s) and nothing between the public entry point %s and this "
+                     "call clears it (%s): a cancel that arrived after the previous operation on that aio had completed is still "
+                     "latched and fails this one" % (f.name, s.line, chain[0], " -> ".join(chain)))
+    if n < 40:
+        raise AnalysisBroken("only %d nni_aio_start sites on a parameter aio" % n)
+
+
 def run(ctx):   # noqa: F811
     ctx.guard(rule_a1)
     ctx.guard(rule_a2)
@@ -1713,3 +1835,4 @@ def run(ctx):   # noqa: F811
     ctx.guard(rule_a13)
     ctx.guard(rule_a14)
     ctx.guard(rule_s4)
+    ctx.guard(rule_a15)
